@@ -5,6 +5,7 @@ package main
 import (
 	"errors"
 	"go/ast"
+	"go/scanner"
 	"go/token"
 )
 
@@ -75,7 +76,8 @@ func vMkEntry(i, class int) vEntry {
 		good, f := vAnnotatedSrc("required", false)
 		e.name, e.content = base+"broken.go", good+"func {\n"
 		vFSPut(e.name, e.content)
-		vParseResult(e.name, f, errors.New(e.name+":5:6: expected 'IDENT', found '{'"))
+		// go/parser reports syntax errors as a scanner.ErrorList with byte offsets
+		vParseResult(e.name, f, scanner.ErrorList{&scanner.Error{Pos: token.Position{Filename: e.name, Offset: len(good) + 5, Line: 5, Column: 6}, Msg: "expected 'IDENT', found '{'"}})
 		return e
 	case 10: // does not parse at all
 		e.class = 2
